@@ -32,7 +32,7 @@ impl Source {
                 let location = normalize_path(location);
 
                 data.iter()
-                    .any(|(path, _content)| path != &location && path.starts_with(&location))
+                    .any(|(path, _content)| path != &location && is_within(path, &location))
             }
         };
         Ok(is_directory)
@@ -99,7 +99,7 @@ impl Source {
                 let data = data.lock().unwrap();
                 let location = normalize_path(location);
                 let mut paths: Vec<_> = data.keys().map(normalize_path).collect();
-                paths.retain(|path| path.starts_with(&location));
+                paths.retain(|path| is_within(path, &location));
 
                 Box::new(paths.into_iter())
             }
@@ -114,7 +114,7 @@ impl Source {
                 let data = data.lock().unwrap();
                 let location = normalize_path(location);
                 let mut paths: Vec<_> = data.keys().map(normalize_path).collect();
-                paths.retain(|path| path.starts_with(&location));
+                paths.retain(|path| is_within(path, &location));
 
                 Box::new(paths.into_iter().map(ResourceContent::File))
             }
@@ -176,12 +176,23 @@ impl Source {
                 } else if self.is_directory(location)? {
                     let mut data = data.lock().unwrap();
                     let location = normalize_path(location);
-                    data.retain(|path, _| !path.starts_with(&location));
+                    data.retain(|path, _| !is_within(path, &location));
                 }
 
                 Ok(())
             }
         }
+    }
+}
+
+/// Tells if a key of the in-memory resources is located within a normalized location: the
+/// current directory normalizes to `.` while normalized keys never start with a `.` component,
+/// so it contains every relative key.
+fn is_within(path: &Path, location: &Path) -> bool {
+    if location == Path::new(".") {
+        path.is_relative()
+    } else {
+        path.starts_with(location)
     }
 }
 
